@@ -196,11 +196,28 @@ def _outputs(ctx: Ctx, c: Collector) -> None:
         if e.kind == "call" and e.term[1][0] == "attr" and e.term[1][2] == "add" and e.term[1][1][0] == "attr" and e.term[1][1][2] == "timed_input_buffer":
             effects.append(e)
     A_early = ("cmp", "<", OT, lastt)
+    # rejections of replies that are malformed in another way (not a mapping, a time that cannot be compared:
+    # a negative isinstance test or an exception handler) do not reject a *valid* output time
+    def other_class(e: Event) -> bool:
+        if any(r == "handler" for _, r in e.tries):
+            return True
+        for g in e.guards:
+            gt = T.guard_term(g)
+            if gt[0] == "not" and gt[1][0] == "call" and gt[1][1] == T.glob("isinstance"):
+                return True
+        return False
+    raises = [e for e in raises if not other_class(e)]
     items = [(f"raise{e.idx}", e.guards) for e in raises] + [(f"eff{e.idx}", e.guards) for e in effects]
     loc = ctx.loc(fi, dev)
     pr: List[str] = []
     try:
-        for a, fired in tables.rows(items, [A_early], lambda t: True if t in (("cmp", "isnot", ("attr", sim, "current_step"), T.NONE),) else None):
+        def truthy(t):
+            if t in (("cmp", "isnot", ("attr", sim, "current_step"), T.NONE),):
+                return True
+            if t[0] == "call" and t[1] == T.glob("isinstance") and t[2] and (t[2][0] == data or T.strip(t[2][0]) == OT):
+                return True           # a well-formed reply
+            return None
+        for a, fired in tables.rows(items, [A_early], truthy):
             r = [x for x in fired if x.startswith("raise")]
             ef = [x for x in fired if x.startswith("eff")]
             if a[A_early]:
